@@ -1,4 +1,5 @@
 import TvCore.Props.WorldLinks
+import TvCore.Proofs.LinkC03
 /-
   C03 — host sets.
 
@@ -17,18 +18,21 @@ def DirExplicit (w : World) (li s d : Nat) : Prop :=
 
 theorem stateFor_partitionOneway_self {M : Type} (l : Link M) (s d : Nat) :
     (l.partitionOneway s d).1.stateFor s d = .explicit := by
-  unfold Link.partitionOneway Link.stateFor
+  obtain ⟨_, _, _, e1, e2, _⟩ := Link.partitionOneway_fields l s d
+  unfold Link.stateFor
+  rw [e1, e2]
   by_cases h : s < d <;> simp [h]
 
 theorem stateFor_partitionOneway_keeps {M : Type} (l : Link M) (p q s d : Nat)
     (h : l.stateFor s d = .explicit) : (l.partitionOneway p q).1.stateFor s d = .explicit := by
-  unfold Link.partitionOneway Link.stateFor at *
+  obtain ⟨_, _, _, e1, e2, _⟩ := Link.partitionOneway_fields l p q
+  unfold Link.stateFor at *
+  rw [e1, e2]
   by_cases h1 : p < q <;> by_cases h2 : s < d <;> simp only [h1, h2, if_true, if_false] at h ⊢ <;> first | rfl | exact h
 
 theorem ab_partitionOneway {M : Type} (l : Link M) (p q : Nat) :
-    (l.partitionOneway p q).1.a = l.a ∧ (l.partitionOneway p q).1.b = l.b := by
-  unfold Link.partitionOneway
-  by_cases h : p < q <;> simp [h]
+    (l.partitionOneway p q).1.a = l.a ∧ (l.partitionOneway p q).1.b = l.b :=
+  ⟨(Link.partitionOneway_fields l p q).1, (Link.partitionOneway_fields l p q).2.1⟩
 
 theorem findIdx?_setAt_at {α : Type} (l : List α) (i : Nat) (f : α → α) (p : α → Bool)
     (hp : ∀ x, l[i]? = some x → p (f x) = p x) : (setAt l i f).findIdx? p = l.findIdx? p := by
